@@ -109,6 +109,20 @@ def main():
         f, dg = check_cuts(impl, pk, keylog, ["-a"] if meta else [], ck, hist, "%s 0x%04X #%d" % (ver, code, i), model=m, opts=options_arg(meta=meta))
         fails += f
         disagreements += dg
+    # a retransmission that coalesces two segments and arrives after later segments of its direction were captured (what a look-ahead
+    # "keep the longer copy" would mishandle): record-aligned segments, every cut
+    for i in range(3 if ck.tier == "quick" else 30):
+        code = codes[(i + 3) % len(codes)]
+        ver = rng.choice(tls_ref.valid_versions(code, iana_ref.denote(table[code])))
+        h2 = collections.Counter()
+        s1 = tlsgen.single(rng, table, code, ver, h2, schedule="records", nrec=rng.choice([4, 6]), reclen=rng.choice([40, 300]))
+        pk2 = capgen.perturb(rng, s1.packets, "coalesced-after")
+        if pk2 is None:
+            continue
+        hist["capture=coalesced-after"] += 1
+        f, dg = check_cuts(impl, pk2, s1.keylog, [], ck, hist, "%s 0x%04X coalesced-after #%d" % (ver, code, i), model=m, opts=options_arg(meta=False))
+        fails += f
+        disagreements += dg
     # QUIC: every cut position of reference connections (alone and interleaved with a TLS connection); per flow and direction the
     # datagrams exported from the cut capture must be a prefix of those exported from the full one
     nq = 4 if ck.tier == "quick" else 40
